@@ -433,6 +433,7 @@ func (c *Cluster) dagReplay(variants int) {
 		return
 	}
 	c.stats.probe("dagreplay-dag")
+	c.checkFairContinuation(ref)
 	// the reference model runs over every replayed history (per-round sets as the
 	// reference instance derived them): cross-check and fragile votes
 	c.findNears(ref)
@@ -872,4 +873,32 @@ func (c *Cluster) heldWitnessInsert(r *RNG, ref, v *instance, base []*DagEvent) 
 		release()
 	}
 	return used
+}
+
+// checkFairContinuation (C06 over a synthetic history): the history ends with
+// synFairCycles cycles of fair gossip among all validators of a static set;
+// every event created before them must by then have a round-received.
+func (c *Cluster) checkFairContinuation(ref *instance) {
+	if c.synFairFrom <= 0 || c.synFairCycles < deepFairCycles || ref.lateSetChange || c.stats.Probes["validator-set-change"] > 0 {
+		return
+	}
+	c.stats.probe("c06-synthetic-fair-continuation-checked")
+	maxDist := 0
+	for i, e := range c.dag.order {
+		if i >= c.synFairFrom {
+			break
+		}
+		fx, ok := ref.facts(e.Hash)
+		if !ok {
+			continue
+		}
+		if fx.rr < 0 {
+			c.violate("C06", "fair-continuation", "event-not-committed-after-fair-gossip", "synthetic history: event %s (creator %s index %d, round %d, witness %v, fame %d) has no round-received after %d cycles of fair gossip among all %d validators (last consensus round %v)", short(e.Hash), short(e.Creator), e.Index, fx.round, fx.witness, fx.fame, c.synFairCycles, len(c.nodes), ref.h.LastConsensusRound)
+			return
+		}
+		if fx.witness && fx.rr-fx.round > maxDist {
+			maxDist = fx.rr - fx.round
+		}
+	}
+	c.stats.probeMax("c06-synthetic-round-received-distance-max", maxDist)
 }
